@@ -345,6 +345,85 @@ def r18_11(run, model):
     run.floor("builtins declared in builtin.gom", len(declared), 12)
 
 
+def r18_12(run, model):
+    run.rule("R18.12", "binders the derive invents cannot capture the user's fields: the struct derives bring every field into scope under its own "
+                       "name, so every other variable pattern the generated code introduces has a name outside the user identifier grammar "
+                       "(identifiers start with a letter; generated names start with `_`)")
+    from rules import c07
+    consts = {}
+    for it, _ in model.all_items(DER):
+        if it["k"] == "Const" and isinstance(it.get("value"), dict) and it["value"].get("k") == "Lit":
+            consts[it["name"]] = it["value"].get("value")
+    src = "\n".join(run.facts.source_lines(DER))
+    for m in re.finditer(r'const\s+(\w+)\s*:\s*&str\s*=\s*"([^"]*)"', src):
+        consts.setdefault(m.group(1), m.group(2))
+    n = 0
+    for f in model.fns(DER):
+        if f.body is None:
+            continue
+        for st in S.walk(f.body):
+            if st["k"] != "Struct" or st["segs"][-1] != "PVar":
+                continue
+            nm = next((fl["expr"] for fl in st["fields"] if fl["name"] == "name"), None)
+            if nm is None:
+                continue
+            chain = [S.norm_ws(run.facts.text(DER, nm["sp"]))]
+            for i in S.idents(nm):
+                chain += c07._origin_chain(run, f, DER, st, i, depth=3)
+            # closure parameters iterating a collection of names: look at how that collection was built
+            text = " <- ".join(chain)
+            if re.search(r"\bfield_name\b|\.fields\b", text) and "AstIdent::new" not in text:
+                continue  # the user's own field name
+            n += 1
+            lits = re.findall(r'AstIdent::new\(&?(?:format!\()?\"([^\"]*)\"', text)
+            for cname in re.findall(r"AstIdent::new\(&?([A-Z_]{3,})\)", text):
+                if cname in consts:
+                    lits.append(consts[cname])
+            if not lits:
+                # a binder iterated from a local collection: find the collection's construction in the same function
+                body = S.norm_ws(run.facts.text(DER, f.body["sp"]))
+                lits = re.findall(r'AstIdent::new\(&?(?:format!\()?\"([^\"]*)\"', body)
+                for cname in re.findall(r"AstIdent::new\(&?([A-Z_]{3,})\)", body):
+                    if cname in consts:
+                        lits.append(consts[cname])
+            ok = bool(lits) and all(l.startswith("_") or l == "self" for l in lits)
+            run.ob("R18.12", f"{f.name}|generated binder #{n} has a name no user field can have", ok, site(DER, st["sp"]),
+                   f"name: {chain[0][:40]}; literal(s) it is built from: {sorted(set(lits)) or 'not found'}",
+                   witness="a derive whose body binds an accumulator `out`: struct Log { out: string, n: int32 } renders the accumulated prefix instead of the field")
+    run.floor("binders invented by the derives", n, 2)
+
+
+def r18_13(run, model):
+    run.rule("R18.13", "a generated constructor pattern has one binder per field of the variant it matches: the argument list of every "
+                       "`Pat::PConstr` the derives build is derived from that variant's `fields.len()` (a wider list is accepted by the "
+                       "derive and rejected by the typer as an arity error in generated code)")
+    from rules import c07
+    n = 0
+    for f in model.fns(DER):
+        if f.body is None:
+            continue
+        for st in S.walk(f.body):
+            if st["k"] != "Struct" or st["segs"][-1] != "PConstr":
+                continue
+            args = next((fl["expr"] for fl in st["fields"] if fl["name"] == "args"), None)
+            if args is None:
+                continue
+            t = S.norm_ws(run.facts.text(DER, args["sp"]))
+            if re.fullmatch(r"Vec::new\(\)|vec!\[\]", t):
+                continue  # nullary variant
+            n += 1
+            chain = [t]
+            for i in S.idents(args):
+                chain += c07._origin_chain(run, f, DER, st, i, depth=3)
+            text = " <- ".join(chain)
+            ok = re.search(r"fields\.len\(\)|fields\.iter\(\)", text) is not None
+            run.ob("R18.13", f"{f.name}|constructor pattern #{n} has one binder per field of its variant", ok, site(DER, st["sp"]),
+                   f"args: {text[:140]}",
+                   witness="enum Shape { Dot, Circle(int32), Label(string, int32, bool) } under derive(ToJson): the arm for Circle is `Circle(__field0, "
+                           "__field1, __field2)`: Constructor Circle expects 1 arguments, but got 3")
+    run.floor("constructor patterns with payload built by the derives", n, 2)
+
+
 def run(run, model):
     run.try_rule(r18_1, model)
     run.try_rule(r18_2, model)
@@ -356,6 +435,8 @@ def run(run, model):
     run.try_rule(r18_8, model)
     run.try_rule(r18_10, model)
     run.try_rule(r18_11, model)
+    run.try_rule(r18_12, model)
+    run.try_rule(r18_13, model)
     from rules import c05
     run.rule("R18.9", "binders of generated code are distinct variables (shared with C05 R05.6: every binder id is fresh, never interned by syntax pointer)")
     run.try_rule(c05.r05_6, model)
